@@ -418,7 +418,7 @@ Fixpoint fits (n : nat) (ns : list node) (bound : nat) (okname : string -> bool)
       end
   end.
 
-(* ---------- side conditions of the call fragment (C05_eval_agrees_partial) ---------- *)
+(* ---------- side conditions of the call fragment (C05_eval_agrees) ---------- *)
 Fixpoint nassign (b : list stmt) : nat :=
   match b with
   | [] => 0
@@ -437,9 +437,9 @@ Fixpoint imports_of_body (b : list stmt) : list (string * string) :=   (* name -
 Definition okname_at (all : list string) (imps : list (string * string)) (s : string) : bool :=
   mem_str s (map fst imps) || negb (mem_str s all).
 
-(* one statement, given the number of variables and the imports defined BEFORE it.
-   Not covered (false): **kwargs (NEWOBJ_EX), and `_var<i> = <global name>` (BUILD / SETITEM(S)
-   applied to a global itself). *)
+(* one statement, given the number of variables and the imports defined BEFORE it: every expression
+   in it prints within depth n and uses only earlier variables / imports.  false on statement forms
+   fickling never emits (an expression statement other than x.__setstate__(s)). *)
 Definition stmt_fits (n : nat) (ns : list node) (bound : nat) (all : list string)
            (imps : list (string * string)) (st : stmt) : bool :=
   let ft := fits n ns bound (okname_at all imps) in
@@ -451,12 +451,8 @@ Definition stmt_fits (n : nat) (ns : list node) (bound : nat) (all : list string
         | [pid], None => ft pid && negb (mem_str "UNPICKLER" (map fst imps))
         | _, _ => false
         end
-      else match kw with
-           | None => ft f && forallb ft args
-           | Some _ => false
-           end
-  | SAssignV _ (EVar j) => Nat.ltb j bound && negb (Nat.eqb n 0)   (* alias of an object *)
-  | SAssignV _ _ => false
+      else ft f && forallb ft args && match kw with Some k => ft k | None => true end
+  | SAssignV _ e => ft e       (* alias of a stand-in: BUILD / SETITEM(S) target *)
   | SResult e => ft e
   | SExpr (ECall (EAttr (EVar i) a) [st] None) => (a =? "__setstate__") && Nat.ltb i bound && ft st
   | SExpr _ => false
